@@ -58,7 +58,7 @@ def probe(acc, world, trace, meta, with_faults=True):
         ncmds = len(may)
         fault_plans = [None]
         if with_faults and not declined and label in ("all-f", "two", "pat", "B"):
-            fault_plans += [(k, kind) for k in range(ncmds) for kind in ("rc1", "stderr_error")]
+            fault_plans += [(k, kind) for k in range(ncmds) for kind in ("rc1", "stderr_error", "rc1_silent")]
         for fp in fault_plans:
             w0 = world.copy()
             if fp:
@@ -191,7 +191,7 @@ def run(ctx):
     ctx.pmap(me, "fresh_compare_batch", freshtier.items([(["cancel", "-f"], None), (["cancel"], "n\n"), (["cancel"], "y\n"), (["cancel", "B"], None), (["cancel", "Zz*"], None)], backends=("slurm", "sge", "lsf") if ctx.tier != "quick" else ("slurm", "lsf")), chunk=2)
     ctx.notes.setdefault("coverage_extra", {})["fresh_process_cases"] = ctx.acc.extra["fresh_processes"]
     ctx.rule = "state = canonical world; per state 13 selections x (no fault + every failing position x 2 kinds); function level: (n, failing set, untracked set, permutation)"
-    ctx.bound = dict(configs=done, selections=13, fault_kinds=["rc1", "stderr_error"])
+    ctx.bound = dict(configs=done, selections=13, fault_kinds=["rc1", "stderr_error", "rc1_silent"])
     ctx.assumptions = ["scheduler simulators: scancel --verbose / qdel / bkill semantics from documentation; a cancel command that fails changes nothing in the scheduler", "local pool: C13/C14"]
 
 
